@@ -85,3 +85,8 @@ M("c18-writable-helper-registers-reader", "C18", A, "_RawSocketMixin._wait_until
 N("c18-n-wait-helper-statement-order", "C18", A, "_RawSocketMixin._wait_until_writable",
   "        f = self._send_future = asyncio.Future()\n        loop.add_writer(self.__raw_socket, f.set_result, None)\n        f.add_done_callback(callback)",
   "        f = asyncio.Future()\n        self._send_future = f\n        f.add_done_callback(callback)\n        loop.add_writer(self.__raw_socket, f.set_result, None)")
+
+# from seeded changes C18/i, C18/j (round 5)
+MM("c18-stale-write-event-snapshot", "C18", [(A, SD, "            try:\n                self._transport.write(item)", "            write_event = self._protocol.write_event\n            try:\n                self._transport.write(item)"),
+                                               (A, SD, "            await self._protocol.write_event.wait()", "            await write_event.wait()")], ["R18-b"])
+M("c18-raw-close-wakes-one-direction", "C18", A, "_RawSocketMixin.aclose", "            if self._send_future and not self._send_future.done():", "            elif self._send_future and not self._send_future.done():", ["R18-h"])
